@@ -79,6 +79,9 @@ func runFree(cfg WorldCfg, body func(w *World)) {
 	}
 	w.Router = sbi.VerifRouter(srv)
 	time.Sleep(5 * time.Millisecond) // listeners up
+	if cfg.RfPort > 0 {
+		waitListening(cfg.RfPort, cfg.AbmfPort)
+	}
 	body(w)
 	cancel()
 	diam.MemCloseAll()
